@@ -117,6 +117,7 @@ class ExcelCompiler:
             assert self.cycles.keys() == {'iterations', 'tolerance'}
 
         self.Cell = _CycleCell if self.cycles else _Cell
+        self.CellRange = _CycleCellRange if self.cycles else _CellRange
         self.evaluate = (self._evaluate_iterative if self.cycles else
                          self._evaluate_non_iterative)
 
@@ -741,7 +742,7 @@ class ExcelCompiler:
             return [a_cell]
 
         def build_range(excel_range):
-            a_range = _CellRange(excel_range, excel=self.excel)
+            a_range = self.CellRange(excel_range, excel=self.excel)
             self.cell_map[str(excel_range.address)] = a_range
 
             added = [a_range]
@@ -805,10 +806,7 @@ class ExcelCompiler:
             self.log.debug(f"Evaluating: {cell_range.address}, {cell_range.python_code}")
             if cell_range.address.is_unbounded_range:
                 bounded_addr = str(self.eval(cell_range))
-                bounded_addr_cell = self.cell_map.get(bounded_addr)
-                if bounded_addr_cell.value is None:
-                    self._evaluate(bounded_addr)
-                data = bounded_addr_cell.value
+                data = self._evaluate(bounded_addr)
 
             elif cell_range.formula is None:
                 data = tuple(
@@ -821,6 +819,8 @@ class ExcelCompiler:
             self.log.info(f"Range {cell_range.address} evaluated to '{data}'")
 
             cell_range.value = data
+            if self.cycles:
+                iterative_eval_tracker.calced(cell_range)
 
         return cell_range.value
 
@@ -1127,6 +1127,18 @@ class _CellRange(_CellBase):
             flatten(v for row in data.values for v in row),  # value
             flatten(f for row in data.formula for f in row)  # formula
         )
+
+
+class _CycleCellRange(_CellRange):
+    """Range which participates in a iterative calculation
+
+    The cells of the range can change in any iteration, so the range
+    needs to be calced in every iteration.
+    """
+
+    @property
+    def needs_calc(self):
+        return self.value is None or not iterative_eval_tracker.is_calced(self)
 
 
 class _Cell(_CellBase):
